@@ -23,6 +23,14 @@ func (e *Exec) callFunction(fn *ssa.Function, args []Value, free []Value, site s
 		}
 		e.unsupported("call of body-less function %s", fn)
 	}
+	if e.Sh.Cfg.Replace != nil {
+		if r, ok := e.Sh.Cfg.Replace[fn.String()]; ok && fn.Pkg != nil && !e.allConcrete(args) {
+			if rf := fn.Pkg.Func(r); rf != nil {
+				return e.callPlain(rf, args, nil, site)
+			}
+			e.unsupported("replacement function %s not found", r)
+		}
+	}
 	if e.scope == nil && e.Sh.Cfg.Merge != nil && e.Sh.Cfg.Merge[fn.String()] {
 		return e.callMerged(fn, args, free, site)
 	}
@@ -874,4 +882,31 @@ func (e *Exec) typeAssert(fr *frame, x *ssa.TypeAssert) Value {
 		e.goPanic("interface conversion", nil)
 	}
 	return v
+}
+
+// allConcrete: every argument is a constant scalar or a slice of constants.
+// (Replaced functions run for real on concrete inputs.)
+func (e *Exec) allConcrete(args []Value) bool {
+	for _, a := range args {
+		switch x := a.(type) {
+		case *sym.Term:
+			if !x.IsConst() {
+				return false
+			}
+		case *SliceV:
+			if !x.Len.IsConst() || !x.Off.IsConst() {
+				return false
+			}
+			n := int(x.Len.Val)
+			for i := 0; i < n; i++ {
+				t, ok := e.load(e.sliceElemPtr(x, i64(int64(i)))).(*sym.Term)
+				if !ok || !t.IsConst() {
+					return false
+				}
+			}
+		default:
+			return false
+		}
+	}
+	return true
 }
